@@ -142,6 +142,7 @@ func leanFacts(F *Facts) string {
 	w("def mapRanges : List String := %s\n\n", leanStrList(siteIDs(F.MapRanges)))
 	w("def sorts : List String := %s\n\n", leanStrList(siteIDs(F.Sorts)))
 	w("def timeNow : List String := %s\n\n", leanStrList(siteIDs(F.TimeNow)))
+	w("def packageVars : List String := %s\n\n", leanStrList(F.PackageVars))
 	w("def sharedState : List String := %s\n\n", leanStrList(siteIDs(F.SharedState)))
 	w("def apiSharedState : List String := %s\n\n", leanStrList(siteIDs(F.ApiShared)))
 	w("def goStatements : List String := %s\n\n", leanStrList(siteIDs(F.GoStmts)))
